@@ -41,11 +41,11 @@ _NT = {'subcat', 'frames:entry', 'proposed-ili', 'meta:example', 'meta:count',
 @st.composite
 def _cases(draw):
     v0 = draw(st.sampled_from(gen.VERSIONS))
-    res = draw(gen.resources(gen.DEFAULT, max_lexicons=2, extensions=False, version=v0))
+    res = draw(gen.resources(gen.FRAMES_PLUS, max_lexicons=2, extensions=False, version=v0))
     v = draw(st.sampled_from(gen.VERSIONS))
     bystanders = []
     if draw(st.booleans()):
-        b = gen._B(draw, gen.DEFAULT, '1.1')
+        b = gen._B(draw, gen.FRAMES_PLUS, '1.1')
         bystanders.append({'lmf_version': '1.1',
                            'lexicons': [gen.draw_extension(b, 'lx', '1', res['lexicons'][0])]})
     if draw(st.booleans()):
@@ -105,6 +105,12 @@ def normal(lex: dict, v: str, model_side: bool, sense_frames=None) -> dict:
                 if fid in frames_by_id:
                     links.append((s['id'], frames_by_id[fid]))
                     linked.add(frames_by_id[fid])
+        own = {s['id'] for s in e.get('senses', [])}
+        for fr in lex.get('frames', []):        # lexicon-level frame naming its senses itself
+            for sid in fr.get('senses', []):
+                if sid in own:
+                    links.append((sid, fr['subcategorizationFrame']))
+                    linked.add(fr['subcategorizationFrame'])
         sids = [s['id'] for s in e.get('senses', [])]
         for fr in e.get('frames', []):
             for sid in (fr.get('senses') or sids):
